@@ -43,7 +43,7 @@ def baseline_keys(prop):
         try:
             mod = importlib.import_module('sa.rules.' + prop.lower())
             run = Run(prop, Tree())
-            mod.check(run)
+            run.guard(mod.check, run)
             _BASE[prop] = {f.key for f in run.findings}
         except Exception:
             _BASE[prop] = set()
@@ -58,12 +58,14 @@ def eval_variant(prop, variant):
     try:
         mod = importlib.import_module('sa.rules.' + prop.lower())
         run = Run(prop, Tree(overlay=overlay))
-        mod.check(run)
+        run.guard(mod.check, run)
         known = {k['key'] for k in load_known() if k.get('property') == prop and k.get('status') == 'known'}
         base = baseline_keys(prop)
         new = [f for f in run.findings if f.key not in known and f.key not in base]
+        if run.analysis_errors and not new:
+            return {'name': name, 'kind': kind, 'result': 'analysis-error', 'error': '; '.join(run.analysis_errors)[:200]}
         return {'name': name, 'kind': kind, 'result': 'fired' if new else 'silent',
-                'findings': [f.key for f in new][:6]}
+                'findings': [f.key for f in new][:6], 'analysis_errors': run.analysis_errors[:2]}
     except AnalysisError as e:
         return {'name': name, 'kind': kind, 'result': 'analysis-error', 'error': str(e)[:200]}
     except Exception:
